@@ -230,4 +230,12 @@ Witness_ZInComp     == ~(nseg >= 1 /\ segs[1].z)
 Witness_WaitPayload == ~(~defunct /\ Len(segbuf) >= HL + 3)
 Witness_AllDone_S   == ~(net = <<>> /\ NDone = N /\ NSegs >= 2)
 Witness_Lag         == ~(~defunct /\ segbuf # <<>> /\ ~Inv_Eager)      \* a complete frame waits behind a partial segment
+
+SWitnessNames == <<"Witness_Defunct", "Witness_MultiSeg", "Witness_Packed", "Witness_PlainInComp", "Witness_ZInComp",
+                   "Witness_WaitPayload", "Witness_AllDone_S", "Witness_Lag">>
+SWitnessReached(i) == CASE i = 1 -> ~Witness_Defunct [] i = 2 -> ~Witness_MultiSeg [] i = 3 -> ~Witness_Packed
+                        [] i = 4 -> ~Witness_PlainInComp [] i = 5 -> ~Witness_ZInComp [] i = 6 -> ~Witness_WaitPayload
+                        [] i = 7 -> ~Witness_AllDone_S [] i = 8 -> ~Witness_Lag
+WitnessScan_S == \A i \in 1..Len(SWitnessNames) :
+    (SWitnessReached(i) /\ TLCGet(100 + i) = 0) => (TLCSet(100 + i, 1) /\ PrintT(<<"WITNESS", SWitnessNames[i]>>))
 =============================================================================
